@@ -733,8 +733,11 @@ func (r *resolver) findGrouping(y *Uses) (*Grouping, error) {
 
 func (r *resolver) applyRefinements(u *Uses, parent Definition) error {
 	for _, refine := range u.refines {
-		if on, err := checkFeature(refine); !on || err != nil {
+		if on, err := checkFeature(refine); err != nil {
 			return err
+		} else if !on {
+			// only this refinement is skipped, the others still apply
+			continue
 		}
 		target := Find(parent.(HasDataDefinitions), refine.Ident())
 		if target == nil {
